@@ -1,6 +1,7 @@
 import PqlModel.Props.C09
 import PqlModel.Props.C09b
 import PqlModel.Props.C09Gaps
+import PqlModel.Props.C09Dispatch
 #print axioms Pql.C09.C09_partition
 #print axioms Pql.C09.C09_rescan
 #print axioms Pql.C09.C09_rescan_any
@@ -12,3 +13,32 @@ import PqlModel.Props.C09Gaps
 #print axioms Pql.C09.C09_trivia_is_skip
 #print axioms Pql.C09.C09_gaps_trivia
 #print axioms Pql.C09.C09_gaps_rescan_nil
+#print axioms Pql.Dispatch.C09_dispatch_interp
+#print axioms Pql.Dispatch.C09_dispatch_tables
+#print axioms Pql.Dispatch.C09_dispatch_case_order
+#print axioms Pql.Dispatch.C09_dispatch_disjoint_ascii
+#print axioms Pql.Dispatch.C09_dispatch_disjoint_nonascii
+#print axioms Pql.Dispatch.C09_dispatch_single
+#print axioms Pql.Dispatch.C09_dispatch_two_eof
+#print axioms Pql.Dispatch.C09_dispatch_two_match
+#print axioms Pql.Dispatch.C09_dispatch_two_other
+#print axioms Pql.Dispatch.C09_dispatch_comment
+#print axioms Pql.Dispatch.C09_dispatch_comment_other
+#print axioms Pql.Dispatch.C09_dispatch_classes
+#print axioms Pql.Dispatch.C09_dispatch_sub
+#print axioms Pql.Dispatch.C09_dispatch_space
+#print axioms Pql.Dispatch.C09_dispatch_default
+#print axioms Pql.Dispatch.C09_dispatch_default_runes
+#print axioms Pql.Dispatch.runesUntil_newline
+#print axioms Pql.Dispatch.C09_ident_interp
+#print axioms Pql.Dispatch.C09_ident_classes
+#print axioms Pql.Dispatch.C09_ident_dollar_only_first
+#print axioms Pql.Dispatch.C09_string_interp
+#print axioms Pql.Dispatch.C09_string_tables
+#print axioms Pql.Dispatch.C09_qident_interp
+#print axioms Pql.Dispatch.C09_qident_table
+#print axioms Pql.Dispatch.C09_dispatch_two_other_needs_hyp
+#print axioms Pql.Dispatch.C09_dispatch_comment_other_needs_hyp
+#print axioms Pql.Dispatch.C09_dispatch_sub_needs_hyp
+#print axioms Pql.Dispatch.C09_dispatch_space_needs_hyp
+#print axioms Pql.Dispatch.C09_dispatch_demo
